@@ -67,6 +67,14 @@ PY = {
     "assert": _s("assert acc < {0}", ["any"], "compare"),
     "listrep": _s("{v} = [None] * {0}", ["int"], "binop"),
     "strrep_float": _s("{v} = \"ab\" * {0}", ["flt"], "str-times-float"),
+    # expressions inside string-building syntax and other less common expression positions (round 7)
+    "fstring": _s("{v} = f\"total {{acc * {0}}} of {{items[{1}]}}\"", ["any", "pos"], "interpolation"),
+    "fstring_nested": _s("{v} = f\"{{emit(f'{{acc + {0}}}')}}\"", ["pos"], "interpolation"),
+    "walrus": _s("emit((w{n} := {0}))", ["any"], "assign"),
+    "raise": _s("raise ValueError({0})", ["any"], "arg"),
+    "starred": _s("emit(*[{0}], **{{'k': {1}}})", ["any", "any"], "collection"),
+    "condexpr_call": _s("emit(acc if acc > {0} else items[{1}])", ["any", "pos"], "ternary"),
+    "lambda_default": _s("{v} = lambda q, r={0}: q + r", ["any"], "default"),
     # documented exempt positions
     "range_expr": _s("{v} = list(range({0}))", ["int"], "range", "range"),
     "range2_expr": _s("{v} = list(range({0}, {1}))", ["int", "int"], "range", "range"),
@@ -116,6 +124,16 @@ _TSJS = {
     "ternary": _s("const {v} = flag ? {0} : {1};", ["any", "any"], "ternary"),
     "arrow": _s("const {v} = (q) => q + {0};", ["pos"], "lambda"),
     "chain": _s("items.map((q) => q * {0}).filter((q) => q > {1});", ["any", "any"], "lambda"),
+    # expressions inside template literals and other less common expression positions (round 7)
+    "tpl_sub": _s("const {v} = `limit ${{acc * {0}}} of ${{items[{1}]}}`;", ["any", "pos"], "interpolation"),
+    "tpl_nested": _s("const {v} = `${{emit(`${{acc + {0}}}`)}}`;", ["pos"], "interpolation"),
+    "tpl_tagged": _s("const {v} = tag`a ${{ {0} }} b`;", ["any"], "interpolation"),
+    "new": _s("const {v} = new Box({0});", ["any"], "arg"),
+    "optchain": _s("obj?.push({0});", ["any"], "arg"),
+    "spread": _s("const {v} = [...items, {0}];", ["any"], "collection"),
+    "nullish": _s("const {v} = acc ?? {0};", ["any"], "binop"),
+    "throw": _s("throw new Error(String({0}));", ["any"], "arg"),
+    "comma_seq": _s("acc = (emit({0}), {1});", ["any", "any"], "arg"),
     "constup": _s("const LOCAL_MAX_{n} = {0};", ["any"], "const", "const"),
     "if": _b("if (acc > {0}) {{", ["any"], "compare"),
     "while": _b("while (acc < {0}) {{", ["any"], "compare"),
@@ -171,6 +189,13 @@ RS = {
     "assertmacro": _s("assert_eq!(acc, {0});", ["any"], "macro"),
     "cast": _s("let {v} = {0} as f64;", ["pos"], "assign"),
     "match": _s("let {v} = match acc {{ {0} => emit({1}), _ => emit(acc) }};", ["int", "any"], "match"),
+    # less common expression positions (round 7)
+    "matchguard": _s("let {v} = match acc {{ q if q > {0} => emit({1}), _ => emit(acc) }};", ["any", "any"], "match"),
+    "some": _s("let {v} = Some({0});", ["any"], "arg"),
+    "iflet": _s("if let Some(q) = items.get({0}) {{ emit(*q); }}", ["int"], "arg"),
+    "formatmacro": _s("let {v} = format!(\"{{}} / {{}}\", acc * {0}, {1});", ["any", "any"], "macro"),
+    "shift": _s("let {v} = acc << {0};", ["int"], "binop"),
+    "rangeincl": _s("let {v} = ({0}..={1}).count();", ["int", "int"], "collection"),
     "constup": _s("const LOCAL_MAX_{n}: {ty0} = {0};", ["any"], "const", "const"),
     "staticup": _s("static LOCAL_LIMIT_{n}: {ty0} = {0};", ["any"], "const", "const"),
     "staticmutup": _s("static mut LOCAL_COUNT_{n}: {ty0} = {0};", ["any"], "const", "const"),
